@@ -51,6 +51,9 @@ func Begin(seed int64, level int) *Tracer {
 	return t
 }
 
+// Detached returns a tracer that is not installed: it records nothing.
+func Detached() *Tracer { return &Tracer{rng: rand.New(rand.NewSource(1))} }
+
 // End removes the tracer; late events from leaked goroutines are dropped.
 func End() { cur.Store(nil) }
 
